@@ -11,7 +11,7 @@ pub mod detmul {
 use vstd::prelude::*;
 use super::na::*;
 use super::linalg::*;
-use super::polyid::*;
+use super::polydet::*;
 
 /// determinant of the matrix with rows u, v, w
 pub open spec fn det3(u: V3, v: V3, w: V3) -> real { mdet(M3 { a: u, b: v, c: w }) }
